@@ -1125,7 +1125,7 @@ func upWireType(fd protoreflect.FieldDescriptor) protowire.Type {
 }
 
 func engineUnmarshalProg(cfg config, o *out) {
-	schemas := loadSchemas()
+	schemas := loadSchemasProg()
 	cc := newClassCov("unmarshalprog")
 	defer cc.emit(o)
 	ops := map[string]int{}
